@@ -100,9 +100,15 @@ def check(case):
     got_coll = sorted((res(a), b) for a, b in w.collectors)
     want_coll = sorted(('AMBIGUOUS' if canon(c['cpp']) in amb_cpp else canon(c['cpp']),
                         c['collector']) for c in exp['classes'])
+    if ambiguous:
+        # (a class reached both through an ambiguous and through an unambiguous typedef name
+        # cannot be told apart either: names only)
+        got_coll = sorted(b for _, b in got_coll)
+        want_coll = sorted(b for _, b in want_coll)
     if got_coll != want_coll:
         out.append(Failure('C10.collectors', 'collector typedefs %s, expected %s' % (
-            [b for _, b in got_coll], [b for _, b in want_coll])))
+            [x if isinstance(x, str) else x[1] for x in got_coll],
+            [x if isinstance(x, str) else x[1] for x in want_coll])))
     names = sorted(c['collector'] for c in exp['classes'])
     if sorted(w.collector_instances) != names:
         out.append(Failure('C10.collectors', 'collector instances %s, expected %s' % (
